@@ -1,6 +1,7 @@
 import GqlProofs.Schema.Sound
 import GqlProofs.Schema.ErrLoc
 import GqlProofs.Schema.Examples
+import GqlProofs.Schema.WfPerm
 /-
   C17 — schema loading is order- and split-independent.
 -/
@@ -129,3 +130,49 @@ example : ∃ e, load Examples.noPanicDoc = .err e := by
             rw [h] at this; simp [LoadResult.isOk] at this
   | panic => have : (load Examples.noPanicDoc).isPanic = false := by decide
              rw [h] at this; simp [LoadResult.isPanic] at this
+
+/- ------------------------------------------------------------------ every order of the sources -/
+
+/-- **the specification is order independent**: `Spec.WellFormed` has the same verdict on two merged
+    documents whose five lists (definitions, EXTENSIONS, directive definitions, schema definitions, schema
+    extensions) are permutations of each other — that is, whatever the order in which the sources are
+    merged and however the definitions are split over the sources.  (`hext`: no extension is marked built
+    in.)  Permuting extensions reorders the fields / interfaces / members / values of the merged types;
+    the clauses are compared up to that (`DefEquiv`). -/
+theorem C17_wellFormed_perm {sd sd' : SchemaDoc} (hp : SourcesPerm sd sd')
+    (hext : ∀ e ∈ sd.extensions, e.builtIn = false) : Spec.WellFormed sd' ↔ Spec.WellFormed sd :=
+  WellFormed_perm_iff hp hext
+
+/-- **C17_verdict_perm_sources — loading succeeds for one order of the sources iff it succeeds for every
+    order.**  `SourcesPerm` permutes all five lists of the merged document (not only `definitions`, as
+    `C17_verdict_perm_definitions` does): by soundness (`C07_load_sound`) and completeness
+    (`C07_load_complete`) the loader accepts exactly the well-formed type systems, and well-formedness
+    is order independent (`C17_wellFormed_perm`).  Hypotheses, on ONE of the two documents (they are
+    order independent themselves): the two guarantees of the prelude and the lexer, and that no directive
+    name is declared twice — which cannot be dropped, `C17_directive_perm_counterexample`. -/
+theorem C17_verdict_perm_sources {sd sd' : SchemaDoc} (hp : SourcesPerm sd sd')
+    (hext : ∀ e ∈ sd.extensions, e.builtIn = false) (hlex : NamesLexical sd) (hd : DirectiveNamesDistinct sd) :
+    (load sd').isPanic = false ∧ (load sd).isPanic = false ∧ (load sd').isOk = (load sd).isOk :=
+  ⟨load_ne_panic sd', load_ne_panic sd, load_isOk_sourcesPerm hp hext hlex hd⟩
+
+/-- the same about the list of parsed sources: merging them in any other order gives a document with the
+    same verdict -/
+theorem C17_verdict_perm_source_list {l l' : List SchemaDoc} (hp : l'.Perm l)
+    (hext : ∀ e ∈ (mergeAll l).extensions, e.builtIn = false) (hlex : NamesLexical (mergeAll l))
+    (hd : DirectiveNamesDistinct (mergeAll l)) : (load (mergeAll l')).isOk = (load (mergeAll l)).isOk :=
+  load_isOk_sourcesPerm (mergeAll_perm hp) hext hlex hd
+
+/-- permuting only the definitions is the special case without hypotheses -/
+theorem C17_defsPerm_is_sourcesPerm {sd sd' : SchemaDoc} (hp : DefsPerm sd sd') : SourcesPerm sd sd' := hp.sources
+
+/-- non-vacuity: a well-formed document with an extension, and the same with definitions and extensions
+    reversed; both load -/
+example :
+    let sd := Examples.doc (Examples.miniPrelude ++ [Examples.typeA, Examples.typeB])
+      (exts := [Examples.defn .object "A" 3 [Examples.fld "x" (Examples.ty "Int")],
+                Examples.defn .object "A" 4 [Examples.fld "y" (Examples.ty "Int")]])
+    let sd' := { sd with definitions := sd.definitions.reverse, extensions := sd.extensions.reverse }
+    SourcesPerm sd sd' ∧ NamesLexical sd ∧ DirectiveNamesDistinct sd ∧ Spec.WellFormed sd ∧
+    (load sd).isOk = true ∧ (load sd').isOk = true := by
+  refine ⟨⟨List.reverse_perm _, List.reverse_perm _, .refl _, .refl _, .refl _⟩, by decide, by decide, by decide,
+    by decide, by decide⟩
